@@ -13,7 +13,9 @@ RULE = (
     "One run = one server (workers in {1,2,4}), mode Graceful{300-700 ms} (72%) or Forced, shutdown called 160-340 ms "
     "after start; 1-40 connections with seeded roles: blocker (std::thread::sleep 60-200 ms, graceful; 300-500 ms, forced, "
     "running when the call is made; in 10% of the graceful runs instead one 'stuck worker' blocker of 3 x timeout + 600-800 ms "
-    "with timeout 300/400 ms, so that the coordinator has to give up on a worker), queued / queued_preconnected (request fully written while the worker is stalled "
+    "with timeout 300/400 ms, so that the coordinator has to give up on a worker; in 14% of the graceful runs a 'drain probe': "
+    "one request in its handler for 300-600 ms, timeout 1200/1500 ms, and a connect() every 20-50 ms from the call until "
+    "after the handler is done), queued / queued_preconnected (request fully written while the worker is stalled "
     "or a few ms before the call), inflight_short (async sleep <= timeout/3 running at the call), inflight_long (3 s), "
     "idle keep-alive, silent (no request), finished (Connection: close), second request of a keep-alive connection "
     "in flight, keep-alive race (second request written around the call), half-written request, connect during "
@@ -42,6 +44,12 @@ ASSUMPTIONS = [
     "a successful connect() after resolution is not a violation by itself (the listener is closed when the acceptor's "
     "runtime drops its aborted accept tasks); what is asserted is that such a connection never reaches a handler and "
     "that nothing is dispatched after the acceptor took the command",
+    "while the drain is in progress (between the coordinator's `workers_told` and `coordinator_end` events, graceful mode) "
+    "a connect() that starts >= 25 ms after `workers_told` must be refused (the sockets are closed when the acceptor first "
+    "yields to its executor, 13-172 us after that event on the unchanged tree); a successful one is a violation only "
+    "on a calm machine (heartbeat lag < 15 ms), else inconclusive; and every listener's `listener_closed` event must "
+    "precede `coordinator_end` in graceful mode (deterministic on the unchanged tree: 2599/2599 runs). Each shard "
+    "process binds its own loopback address 127.0.0.(2+shard), so a port re-used by another shard cannot be reached",
     "liveness is bounded: shutdown future / awaited handle clone not resolved 20 s after the timeout is a violation "
     "only if the log shows the coordinator or every worker had already finished and the load probe (5 ms heartbeat) "
     "saw < 100 ms lag; otherwise inconclusive",
